@@ -48,7 +48,9 @@ GraphOk(c, n) ==
 Sorted(rs) == \A a \in 1..Len(rs) : rs[a][1] <= rs[a][2] /\ rs[a][2] <= MaxChar
                                     /\ (a < Len(rs) => rs[a][2] < rs[a + 1][1])
 Covered(rs, D) == \A x \in D : \E a \in 1..Len(rs) : Mem(rs[a], x)
-StateOk(c, st) == /\ Sorted(st.ranges)
+DisjointRanges(rs) == /\ \A a \in 1..Len(rs) : rs[a][1] <= rs[a][2] /\ rs[a][2] <= MaxChar
+                      /\ \A a, b \in 1..Len(rs) : a # b => (rs[a][2] < rs[b][1] \/ rs[b][2] < rs[a][1])
+StateOk(c, st) == /\ DisjointRanges(st.ranges)
                   /\ Covered(st.ranges, RepSet(c)) \/ st.default
 
 (* ---- C03: derivative classes of a node (DESIGN 5 C03 c-f) ---- *)
